@@ -55,6 +55,39 @@ def run(ck):
         ck.fail_unwitnessed("correspondence Codec/Enc.v ~ packet encoder (%d disagreeing cases, first: %s)"
                             % (len(tie_only), tie_only[0][:300]), replay)
     if ck.tier == "thorough" and not ck.replay:
+        # T-exh in the kernel: defaultFlags / Valid / New / GetID for all 16 type nibbles
+        rows = []
+        with open(path) as f:
+            for l in f:
+                if l.startswith("tt "):
+                    rows.append([int(x) for x in l.split()[1:6]])
+        enc = lambda v: 255 if v < 0 else v
+        v = ("From Coq Require Import List NArith Bool.\nFrom GM Require Import Codec.Packet.\nImport ListNotations.\n"
+             "Open Scope N_scope.\nOpen Scope bool_scope.\n"
+             "Definition sample (t : ptype) : packet := match t with\n"
+             " | TConnect => Connect (Conn [] 0 [] [] true None 4) | TConnack => Connack false 0\n"
+             " | TPublish => Publish false (Msg [] [] 0 false) 4711 | TPuback => Puback 4711 | TPubrec => Pubrec 4711\n"
+             " | TPubrel => Pubrel 4711 | TPubcomp => Pubcomp 4711 | TSubscribe => Subscribe 4711 [] | TSuback => Suback 4711 []\n"
+             " | TUnsubscribe => Unsubscribe 4711 [] | TUnsuback => Unsuback 4711 | TPingreq => Pingreq | TPingresp => Pingresp\n"
+             " | TDisconnect => Disconnect end.\n"
+             "(* row: nibble, defaultFlags, Valid, type of New() (255 = error), GetID of New() with ID 4711 (255 = no id) *)\n"
+             "Definition agrees (r : N*N*N*N*N) : bool := let '(nib, df, valid, nt, gid) := r in\n"
+             "  match type_of_code nib with\n"
+             "  | None => (df =? 0) && (valid =? 0) && (nt =? 255) && (gid =? 255)\n"
+             "  | Some t => (df =? default_flags t) && (valid =? 1) && (nt =? type_code (ptype_of (sample t))) && (nib =? type_code t)\n"
+             "              && (gid =? match get_id (sample t) with Some i => i | None => 255 end)\n"
+             "  end.\n")
+        v += "Definition observed : list (N*N*N*N*N) := [%s].\n" % "; ".join(
+            "(%d,%d,%d,%d,%d)" % (r[0], r[1], r[2], enc(r[3]), enc(r[4])) for r in rows)
+        v += ("Lemma tie : forallb agrees observed = true.\nProof. vm_compute; reflexivity. Qed.\n"
+              "Lemma covers_all_nibbles : map (fun r => let '(nib, _, _, _, _) := r in nib) observed = "
+              "[0;1;2;3;4;5;6;7;8;9;10;11;12;13;14;15].\nProof. vm_compute; reflexivity. Qed.\n")
+        ok, out = ck.tie_v("Observed_packet", v)
+        ck.extra["exhaustive_type_table"] = bool(ok)
+        ck.extra["in_kernel_table_rows"] = len(rows)
+        if not ok and not witnessed:
+            ck.fail_unwitnessed("Tie/Observed_packet.v (in-kernel table of defaultFlags/Valid/New/GetID for all 16 type nibbles)",
+                                ["tt " + " ".join(str(x) for x in r) for r in rows])
         ck.coqchk(["GM.Props.C01"])
     ck.evaluations = ck.stats.get("model_cases", 0)
     ck.distinct = ck.stats.get("model_distinct", 0)
